@@ -293,29 +293,36 @@ theorem transient_http_iff (r : Resp) :
     exact ⟨classify r.status, if classify r.status = ErrClass.tooMany then retryAfter r else none,
       by simp only [verdict, h4, hr, if_true]⟩
 
-theorem truncSec_gt (x : Int) : x - tickPerSec < truncSec x := by
-  unfold truncSec tickPerSec; split <;> omega
+theorem ceilSec_ge (x : Int) : x ≤ ceilSec x ∧ ceilSec x < x + tickPerSec := by
+  unfold ceilSec tickPerSec; omega
 
-/-- F1 repaired: a 429 whose `Retry-After` is an HTTP-date is retried like any other 429, and the
-    next attempt — whenever there is one — starts no earlier than `max(0, int(when - now))` whole
-    seconds after the response, hence less than one second before the date itself (the code
-    truncates `when - now` to whole seconds; see the witness below). -/
+/-- F1 repaired (dee5a41, rounded up in 19d7f3b): a 429 whose `Retry-After` is an HTTP-date is
+    retried like any other 429, and the next attempt — whenever there is one — starts no earlier
+    than the date itself: the gap after the response is at least `max(0, when - now)`. -/
 theorem retry_after_http_date (bo : Backoffs) (enforce : Bool) (script : List Att) (t : Int)
     (j : Nat) (tj tj' : Int) (a : Att) (r : Resp) (d : Int)
     (h0 : (request bo enforce script t).times[j]? = some tj)
     (h1 : (request bo enforce script t).times[j + 1]? = some tj')
     (ha : script[j]? = some a) (hf : a.fault = .http r) (h429 : r.status = 429) (hd : r.hdr = .date d) :
     (∃ c ra, verdict a.fault = .retry c ra) ∧
-    0 ≤ tj' - (tj + a.lat) ∧ truncSec d ≤ tj' - (tj + a.lat) ∧ d - tickPerSec < tj' - (tj + a.lat) := by
-  have hra : retryAfter r = some (if truncSec d < 0 then 0 else truncSec d) := by simp [retryAfter, hd]
+    0 ≤ tj' - (tj + a.lat) ∧ d ≤ tj' - (tj + a.lat) := by
+  have hra : retryAfter r = some (if ceilSec d < 0 then 0 else ceilSec d) := by simp [retryAfter, hd]
   have := gap_ge_retry_after bo enforce script t j tj tj' a r _ h0 h1 ha hf h429 hra
-  have hgt := truncSec_gt d
-  refine ⟨⟨.tooMany, retryAfter r, by rw [hf]; exact verdict_429 r h429⟩, ?_, ?_, ?_⟩ <;>
+  have hge := (ceilSec_ge d).1
+  refine ⟨⟨.tooMany, retryAfter r, by rw [hf]; exact verdict_429 r h429⟩, ?_, ?_⟩ <;>
     (split at this <;> omega)
 
-/-- The truncation is real: a date 2.5 s ahead is waited for 2 s only (zero backoff). -/
-theorem http_date_truncation_witness :
-    (request (ofList [0]) false [⟨.http ⟨429, .date 2560, .empty, none⟩, 0⟩] 0).times = [0, 2048] := by decide
+/-- … and the requested delay itself never overshoots the date by a whole second -/
+theorem http_date_delay_exact (r : Resp) (d : Int) (hd : r.hdr = .date d) (hpos : 0 ≤ d) :
+    ∃ ra, retryAfter r = some ra ∧ d ≤ ra ∧ ra < d + tickPerSec := by
+  have := ceilSec_ge d
+  refine ⟨ceilSec d, ?_, this.1, this.2⟩
+  have : ¬ ceilSec d < 0 := by omega
+  simp [retryAfter, hd, this]
+
+/-- a date 2.5 s ahead is waited for 3 s (zero backoff): never earlier than requested -/
+theorem http_date_rounds_up :
+    (request (ofList [0]) false [⟨.http ⟨429, .date 2560, .empty, none⟩, 0⟩] 0).times = [0, 3072] := by decide
 
 /-- An unparsable `Retry-After` is ignored — no foreign exception, the 429 is retried on the
     configured backoff alone (and the body's `details.retryAfterSeconds` is not consulted, as for
